@@ -54,16 +54,36 @@ def _job(job):
             kw["applied_filters"] = [dict(name=FILTERS[f][0], args=(), kwargs=dict(FILTERS[f][1])) for f in fl]
         return MazeDatasetConfig(**kw)
 
-    denote = {}
+    denote, denote_ds, tk = {}, {}, []
+
+    def ref_ds(c, fl):
+        k = (c, tuple(fl))
+        if k not in denote_ds:
+            ds = MazeDataset.generate(mk(c, []), verbose=False)
+            for f in fl:
+                ds = getattr(ds.filter_by, FILTERS[f][0])(**FILTERS[f][1])
+            denote_ds[k] = ds
+        return denote_ds[k]
 
     def ref(c, fl):
         k = (c, tuple(fl))
         if k not in denote:
-            ds = MazeDataset.generate(mk(c, []), verbose=False)
-            for f in fl:
-                ds = getattr(ds.filter_by, FILTERS[f][0])(**FILTERS[f][1])
-            denote[k] = _digests(ds)
+            denote[k] = _digests(ref_ds(c, fl))
         return denote[k]
+
+    def view(ds, v):
+        """per-maze digests of a derived view; the tokenizer is one without random choices (sorted coordinates, no shuffling)"""
+        if v == "tok":
+            if not tk:
+                from maze_dataset.tokenization import AdjListTokenizers, EdgePermuters, MazeTokenizerModular, PromptSequencers
+
+                tk.append(MazeTokenizerModular(prompt_sequencer=PromptSequencers.AOTP(adj_list_tokenizer=AdjListTokenizers.AdjListCoord(shuffle_d0=False, edge_permuter=EdgePermuters.SortedCoords()))))
+            items = [" ".join(t).encode() for t in ds.as_tokens(tk[0])]
+        elif v == "pix":
+            items = [np.ascontiguousarray(m.as_pixels()).tobytes() + repr(np.asarray(m.as_pixels()).shape).encode() for m in ds.mazes]
+        else:
+            items = [m.as_ascii().encode() for m in ds.mazes]
+        return [hashlib.sha1(x).hexdigest()[:16] for x in items]
 
     def key(ds):
         return [str(ds.cfg.name), [LETTER.get(f["name"], "?") for f in ds.cfg.applied_filters if f["name"] != "collect_generation_meta"]]
@@ -87,7 +107,7 @@ def _job(job):
         try:
             for e in h:
                 ev = dict(op=e["op"], c=e.get("c", "-"), fl=list(e.get("fl", [])), i=int(e.get("i", 0)), f=e.get("f", "-"), p=e.get("p", "-"), how="-", res="ok", key=["-", []], dig=[], ref=[],
-                          j=int(e.get("j", 0)), d=e.get("d", "-"), k=int(e.get("k", 0)), mkeys=[])
+                          j=int(e.get("j", 0)), d=e.get("d", "-"), k=int(e.get("k", 0)), mkeys=[], v=e.get("v", "-"))
                 try:
                     if e["op"] == "request":
                         obs.clear()
@@ -114,6 +134,11 @@ def _job(job):
                         ds = MazeDataset.read(os.path.join(d, f"user_{e['p']}.zanj"))
                         hs.append(ds)
                         model_keys.append(obs["saved_" + e["p"]])
+                    elif e["op"] == "view":
+                        ev["v"] = e["v"]
+                        mk_ = model_keys[e["i"] - 1]
+                        ev["dig"] = view(hs[e["i"] - 1], e["v"])
+                        ev["ref"] = view(ref_ds(mk_[0], mk_[1]), e["v"])
                     elif e["op"] in ("collect", "collgen", "collrt"):
                         from maze_dataset.dataset.collected_dataset import MazeDatasetCollection, MazeDatasetCollectionConfig
 
@@ -133,7 +158,7 @@ def _job(job):
                         # the flattened view, item by item through __getitem__
                         ev["dig"] = _digests(type("L", (), {"mazes": [coll[q] for q in range(len(coll))]})())
                         ev["ref"] = [x for (c_, fl_) in ckeys for x in ref(c_, fl_)]
-                    if e["op"] not in ("save", "collect", "collgen", "collrt"):
+                    if e["op"] not in ("save", "collect", "collgen", "collrt", "view"):
                         ev["key"] = key(ds)
                         ev["dig"] = _digests(ds)
                         ev["ref"] = ref(model_keys[-1][0], model_keys[-1][1])
@@ -151,12 +176,13 @@ def _job(job):
 
 
 def synth():
-    ev = lambda **k: dict(dict(op="request", c="a", fl=[], i=0, f="-", p="-", how="cold", res="ok", key=["a", []], dig=["d1", "d2"], ref=["d1", "d2"], j=0, d="-", k=0, mkeys=[]), **k)  # noqa: E731
+    ev = lambda **k: dict(dict(op="request", c="a", fl=[], i=0, f="-", p="-", how="cold", res="ok", key=["a", []], dig=["d1", "d2"], ref=["d1", "d2"], j=0, d="-", k=0, mkeys=[], v="-"), **k)  # noqa: E731
     return dict(events=[ev(), ev(how="warm"), ev(op="filter", c="-", i=1, f="p", how="-", key=["a", ["p"]], dig=["d2"], ref=["d2"]),
                         ev(op="save", c="-", i=3, p="x", how="-", key=["-", []], dig=[], ref=[]), ev(op="read", c="-", p="x", how="-", key=["a", ["p"]], dig=["d2"], ref=["d2"]),
                         ev(fl=["p"], key=["a", ["p"]], dig=["d2"], ref=["d2"]),
                         ev(op="collect", c="-", i=1, j=3, how="-", key=["-", []], mkeys=[["a", []], ["a", ["p"]]], dig=["d1", "d2", "d2"], ref=["d1", "d2", "d2"]),
-                        ev(op="collrt", c="-", k=1, how="-", key=["-", []], mkeys=[["a", []], ["a", ["p"]]], dig=["d1", "d2", "d2"], ref=["d1", "d2", "d2"])])
+                        ev(op="collrt", c="-", k=1, how="-", key=["-", []], mkeys=[["a", []], ["a", ["p"]]], dig=["d1", "d2", "d2"], ref=["d1", "d2", "d2"]),
+                        ev(op="view", c="-", i=4, v="tok", how="-", key=["-", []], dig=["t2"], ref=["t2"])])
 
 
 def canaries():
@@ -187,10 +213,15 @@ def canaries():
     t = synth()
     t["events"][7]["dig"] = ["d1", "d2"]
     c.append((t, "M:collection_is_not_the_models_collection"))
+    t = synth()
+    t["events"][8]["dig"] = ["t9"]
+    c.append((t, "M:view_differs_from_the_view_of_the_models_dataset"))
     return c
 
 
 def run(chk, thorough):
+    r = lib.tlc_design("MazeSystem", "MazeSystem_views.cfg", expect_actions=["View"], tag="msv", timeout=3000)
+    chk.add_model("MazeSystem/views", r, "derived views (tokens / pixels / ascii) of every handle after every history of <= 4 operations show what the handle's configuration denotes")
     r = lib.tlc_design("MazeSystem", "MazeSystem_small.cfg", expect_actions=["Request", "Filter", "Save", "Read", "Collect", "CollGenerate", "CollRoundTrip"], tag="ms", timeout=3000)
     chk.add_model("MazeSystem/small", r, "composition config -> cache -> generate -> filters -> save/read -> collections: 2 base configs, 2 filters, <= 5 operations, every interleaving")
     lib.tlc_expect_violation("MazeSystem", "MazeSystem_badkey.cfg", "NoMismatch", tag="ms1")
